@@ -508,6 +508,36 @@ func genDevice(r *RNG, b *iosDev) (*iosDev, []string) {
 			}
 		}
 	}
+	// hand-made routes in a table that the target knows by an interface but specifies no routes for, to the very
+	// destinations that the target routes in another table: they must stay (seeded change C07-W1 paired them across tables)
+	if len(b.Routes) > 0 && r.Chance(40) {
+		has, tables := map[string]bool{}, map[string]bool{}
+		for _, rt := range b.Routes {
+			has[routeVRF(rt)] = true
+		}
+		for _, i := range b.Intfs {
+			tables[i.VRF] = true
+		}
+		for _, v := range []string{"", "V1"} {
+			if !tables[v] || has[v] {
+				continue
+			}
+			pre := ""
+			if v != "" {
+				pre = "vrf " + v + " "
+			}
+			for _, rt := range b.Routes {
+				f := strings.Fields(rt)
+				if len(f) > 1 && f[0] == "vrf" {
+					f = f[2:]
+				}
+				if nr := pre + strings.Join(f[:len(f)-1], " ") + " 10.1.1.249"; !contains(a.Routes, nr) {
+					a.Routes = append(a.Routes, nr)
+				}
+			}
+			say("manual-routes-same-destination-in-known-table-without-target-routes")
+		}
+	}
 	if r.Chance(25) {
 		a.setBodies("MANUAL", []string{"permit ip host 9.9.9.9 any"})
 		say("unmanaged-acl")
@@ -529,6 +559,19 @@ func genDevice(r *RNG, b *iosDev) (*iosDev, []string) {
 		a.Intfs = append(a.Intfs, in)
 		a.Routes = append(a.Routes, "vrf OTHER 10.66.0.0 255.255.0.0 10.99.0.254")
 		say("unmanaged-vrf")
+		if r.Chance(50) {
+			// the unmanaged VRF routes the very destinations that the target routes elsewhere (seeded change C07-W1)
+			for _, rt := range b.Routes {
+				f := strings.Fields(rt)
+				if len(f) > 1 && f[0] == "vrf" {
+					f = f[2:]
+				}
+				if nr := "vrf OTHER " + strings.Join(f[:len(f)-1], " ") + " 10.99.0.253"; !contains(a.Routes, nr) {
+					a.Routes = append(a.Routes, nr)
+				}
+			}
+			say("unmanaged-vrf-same-destinations-as-target")
+		}
 	}
 	if r.Chance(18) {
 		in := &iosIntf{Name: "Loopback7", Addr: "10.77.0.1 255.255.255.255"}
